@@ -221,6 +221,11 @@ func (n *namer) isKeyword(name string) bool {
 	if _, found := n.keywords[name]; found {
 		return true
 	}
+	// Sized scalar / packed type names (int16_t, float16_t, uint64_t, int8_t4_packed, ...):
+	// IsReserved knows them, the namer has to as well.
+	if _, found := typeShorthands[name]; found {
+		return true
+	}
 	_, found := n.keywordsCaseInsensitive[strings.ToLower(name)]
 	return found
 }
